@@ -6,7 +6,7 @@ for t in java g++ python3; do command -v $t >/dev/null || { echo "missing tool: 
 test -f /opt/veriftools/tla/tla2tools.jar || { echo "missing tla2tools.jar"; exit 1; }
 mkdir -p .work/setup && cp spec/*.tla .work/setup/
 cd .work/setup
-for m in SeqOps Vec MCVec TraceVec Growth Sets MCSets Ledger TraceSets MemAlgo MCMemAlgo TraceMemAlgo Static Readers TraceReaders SmallVecWords; do
+for m in SeqOps Vec MCVec TraceVec Growth Sets MCSets Ledger TraceSets MemAlgo MCMemAlgo TraceMemAlgo Static Readers TraceReaders SmallVecWords Slots; do
   java -cp /opt/veriftools/tla/tla2tools.jar:/opt/veriftools/tla/CommunityModules-deps.jar tla2sany.SANY $m.tla >$m.sany.log 2>&1 || { cat $m.sany.log; exit 1; }
   if grep -q "Errors\|Error:" $m.sany.log; then cat $m.sany.log; exit 1; fi
 done
